@@ -410,6 +410,7 @@ func (s *bufScanner) Unscan() { s.n++ }
 
 // curr returns the last read token.
 func (s *bufScanner) curr() (tok Token, pos Pos, lit string) {
+	verifAssertTokenPushback(s)
 	buf := &s.buf[(s.i-s.n+len(s.buf))%len(s.buf)]
 	return buf.tok, buf.pos, buf.lit
 }
@@ -472,6 +473,7 @@ func (r *reader) read() (ch rune, pos Pos) {
 	r.i = (r.i + 1) % len(r.buf)
 	buf := &r.buf[r.i]
 	buf.ch, buf.pos = ch, r.pos
+	verifOnRead(r)
 
 	// Update position.
 	// Only count EOF once.
@@ -498,6 +500,7 @@ func (r *reader) unread() {
 
 // curr returns the last read character and position.
 func (r *reader) curr() (ch rune, pos Pos) {
+	verifAssertReaderPushback(r)
 	i := (r.i - r.n + len(r.buf)) % len(r.buf)
 	buf := &r.buf[i]
 	return buf.ch, buf.pos
